@@ -86,6 +86,12 @@ void h_send(void)
 #ifdef ADDR_MAX
     for (i = ADDR_MAX; i < IRC_NTOP_MAX; i++) req->text_addr[i] = '\0';     /* bounded stand-in: address text of <= ADDR_MAX bytes */
 #endif
+#ifdef CONCRETE_PREFIX
+    /* the <id> <address> <port> prefix is proved for all values in the job with the shortest
+     * format ("d"); the other formats are proved with one concrete prefix and symbolic arguments */
+    req->client = 7; req->remote_port = 1234;
+    req->text_addr[0] = '1'; req->text_addr[1] = '.'; req->text_addr[2] = '2'; req->text_addr[3] = '\0';
+#endif
     f = F;
     g_out_len = 0;
 #if KIND == 14
